@@ -6,6 +6,7 @@ import TongoProofs.Lemmas.HashmapPruned
 import TongoProofs.Lemmas.HashmapSound
 import TongoGen.HashmapKeys
 import TongoProofs.Lemmas.HashmapCanon
+import TongoProofs.Lemmas.HashmapBridge
 /-! # Property C05 — dictionaries (Hashmap / HashmapE) preserve their key→value mapping
 
 Model: `TongoModel/Hashmap.lean` (mirror of tlb/hashmap.go after the repairs recorded in known_findings.txt).
@@ -419,8 +420,9 @@ theorem reencode_canonical (C : Codec V) (pay : V → List Bool × List Cell) (n
 the encoding for everything else -/
 def ltOf (k : Gen.HashmapKeys.KeyType) : Key → Key → Bool := if k.signed then ltSigned else ltUnsigned
 
-/-- for EVERY key type of package tlb, the comparison the model uses for it is a strict total order on keys of its
-FixedSize -/
+/-- the comparison the model uses for a key type is a strict total order on keys of its FixedSize (true for any
+`KeyType` value — the table enters through `every_key_type_family_matches_source`, which is about the regenerated
+data) -/
 theorem every_key_type_strict_total :
     ∀ k ∈ Gen.HashmapKeys.table, StrictTotalOn (ltOf k) k.fixedSize := by
   intro k _
@@ -428,6 +430,17 @@ theorem every_key_type_strict_total :
   split
   · exact strictTotal_ltSigned _
   · exact strictTotal_ltUnsigned _
+
+/-- for EVERY key type of the regenerated table (this is a statement about the data extracted from tlb/*.go): the family
+the model assigns to it — `ltSigned` exactly for the types whose codec is WriteInt/ReadInt — agrees with the comparison
+kind and the underlying Go kind read off the source: numeric Compare on a signed kind for `ltSigned`; numeric Compare on an
+unsigned kind, bytes.Compare, or (uint32 workchain, bytes) for `ltUnsigned`. With `typed_compare_is_model_compare` this
+says that `ltOf k` is the Go `Compare` of `k`. -/
+theorem every_key_type_family_matches_source :
+    Gen.HashmapKeys.table.all (fun k =>
+      (k.signed == (k.cmp == .numeric && k.underlying == .signedInt)) &&
+      (k.signed || (k.cmp == .numeric && k.underlying == .unsignedInt) || (k.cmp == .bytes && k.underlying == .byteArray)
+        || (k.cmp == .wcUint32ThenBytes && k.fixedSize == 288))) = true := by decide
 
 /-- `Put` keeps the slice ordered by `Compare`, duplicate-free and of the right width — instantiated for every key type -/
 theorem put_sorted_every_key_type (k : Gen.HashmapKeys.KeyType) (hk : k ∈ Gen.HashmapKeys.table)
@@ -477,7 +490,8 @@ theorem size_fits_mono (n N b : Nat) (hn : n ≤ N) (h : b + N + 2 + minBitsRequ
 
 /-- Marshal never overflows a cell for the key types the library ships: with any key width up to 512 bits (Bits512 is the
 widest) every value of at most 499 bits and 4 refs fits; with integer keys (≤ 64 bits) values up to 950 bits fit; with
-256-bit keys up to 756. (1023 = 2 + bitlength n + n + value bits is attained, so these are the exact limits.) -/
+256-bit keys up to 756. (Sufficient limits: 1023 = 2 + bitlength n + n + value bits is attained by a single
+mixed-bit key; leaves below forks have shorter labels and more room — see `marshal_sound` for what happens beyond.) -/
 theorem encode_never_overflows (C : Codec V) (pay : V → List Bool × List Cell) (n : Nat) (lt : Key → Key → Bool)
     (ops : List (Key × V)) (hnd : (keysOf ops).Nodup) (hw : ∀ kv ∈ ops, kv.1.length = n)
     (hval : ∀ kv ∈ ops, C.enc kv.2 = .ok (pay kv.2) ∧ (pay kv.2).2.length ≤ 4 ∧ DecodesValue C pay kv.2 ∧
@@ -528,6 +542,43 @@ both for present keys (the value is revealed) and for absent ones (absence is re
 theorem pruned_agrees_with_full (p : PTree V) (t : HTree V) (h : PTree.Prunes p t) (n : Nat) (hv : t.Valid n) :
     p.Valid n ∧ p.meaning.Sublist t.meaning ∧ ∀ k, p.covers k = true → get p.meaning k = get t.meaning k :=
   ⟨prunes_valid p t h n hv, prunes_sublist p t h, get_prunes p t h⟩
+
+/-! ## Layering: the dictionary model sits on the bit-level reference (`Lemmas/HashmapBridge.lean`) -/
+
+/-- The bit-list operations of the dictionary model ARE the cell primitives the Go code calls, as programs over
+`Tlb.Builder` / `Tlb.Slice` (whose operations are `Op.spec` by `Tongo.Bridge.builder_*` / `slice_*` / `cell_addRef_bridge` /
+`cell_nextRef_bridge`, and `Op.spec` is refined by the byte-level model of boc.BitString: `C06.op_refines`):
+the label writer, leaf and fork assembly with the 1023-bit / 4-ref capacity errors, the label reader with the
+capacity-bounded key prefix, and the two `NextRef`s of a fork; and the model's `minBitsRequired` is the reference's and the
+regenerated one. -/
+theorem dictionary_model_on_cell_primitives (m : Nat) (hm : m < 2 ^ 64) :
+    (∀ (label : Key) (b : Tlb.Builder), label.length < 2 ^ 64 →
+      Bridge.writeLabelB label m b = b.writeBits (encLabelBits label (m : Int))) ∧
+    (∀ (k : Key) (vb : List Bool) (vr : List Cell), k.length < 2 ^ 64 →
+      mkCell (encLabelBits k (m : Int) ++ vb) vr =
+        (do let b ← Bridge.writeLabelB k m Tlb.Builder.empty
+            let b ← b.writeBits vb
+            let b ← vr.foldlM (fun b r => b.addRef r) b
+            pure b.toCell)) ∧
+    (∀ (p : Key) (l r : Cell), p.length < 2 ^ 64 →
+      mkCell (encLabelBits p (m : Int)) [l, r] =
+        (do let b ← Bridge.writeLabelB p m Tlb.Builder.empty
+            let b ← b.addRef l
+            let b ← b.addRef r
+            pure b.toCell)) ∧
+    (∀ (cap : Nat) (pfx : Key) (s : Tlb.Slice),
+      Bridge.loadLabelS m cap pfx s =
+        match loadLabel (m : Int) cap pfx s.bits with
+        | .ok (ln, key, rest) => .ok (ln, key, { s with bits := rest })
+        | .err e => .err e
+        | .panic e => .panic e) ∧
+    minBitsRequired m = BitString.minBitsRequired m ∧
+    (∀ x : BitVec 64, minBitsRequired x.toNat = (Gen.MinBits.minBitsRequired x).toNat) :=
+  ⟨fun label b hl => Bridge.writeLabelB_eq label m hm hl b,
+   fun k vb vr hk => Bridge.leaf_eq_program k m hm hk vb vr,
+   fun p l r hp => Bridge.fork_eq_program p m hm hp l r,
+   fun cap pfx s => Bridge.loadLabelS_eq m cap hm pfx s,
+   Bridge.minBits_eq_reference m hm, Bridge.minBits_eq_regenerated⟩
 
 /-! ## The defect repaired by `fix: Hashmap.MarshalTLB orders entries by their encoded key bits` (DESIGN §9 #10)
 
